@@ -96,4 +96,53 @@ theorem generated_lockPublished (I : Interp) (table : List Row) (x : Var) (m : N
     obtain ⟨g, h', _, h1, _, h2⟩ := hg
     exact Or.inr ⟨by rw [← hwr]; exact hnw, g, h1, h2⟩
 
+/-! ### the immutable class: `Sync.PublishedBy` (needs a write to anchor the publication point) -/
+
+theorem last_such (P : Ev → Prop) : ∀ tr : List Ev, (∃ e ∈ tr, P e) →
+    ∃ post e pre, tr = post ++ e :: pre ∧ P e ∧ ∀ e' ∈ post, ¬ P e'
+  | [], h => by simp at h
+  | e :: tr, h => by
+    by_cases he : P e
+    · exact ⟨[], e, tr, rfl, he, by simp⟩
+    · have : ∃ e' ∈ tr, P e' := by
+        obtain ⟨e', hm, hp⟩ := h
+        rcases List.mem_cons.mp hm with h1 | h1
+        · subst h1; exact absurd hp he
+        · exact ⟨e', h1, hp⟩
+      obtain ⟨post, w, pre, hs, hw, hn⟩ := last_such P tr this
+      refine ⟨e :: post, w, pre, by simp [hs], hw, ?_⟩
+      intro e' hm
+      rcases List.mem_cons.mp hm with h1 | h1
+      · subst h1; exact he
+      · exact hn e' h1
+
+/-- a field of the immutable class that is written at all: written by its creator only, and every access
+    by another goroutine has a publication point after the last write -/
+theorem disciplined_published {x : Var} {owner : Tid} {tr : List Ev}
+    (h : Disciplined .immutable owner x tr)
+    (hex : ∃ e ∈ tr, e.touches x = true ∧ e.isWrite = true) : PublishedBy x owner tr := by
+  have hfresh : ∀ post e pre, tr = post ++ e :: pre → e.touches x = true → e.isWrite = true →
+      FreshUntilPublished x owner tr pre e := by
+    intro post e pre ht hx hw
+    rcases h post e pre ht hx with hf | hc
+    · exact hf
+    · have hc : e.isWrite = false := hc
+      rw [hc] at hw; simp at hw
+  constructor
+  · intro e he hx hw
+    obtain ⟨post, pre, hs⟩ := List.append_of_mem he
+    exact (hfresh post e pre hs hx hw).1
+  · intro j b hb hbx hbc
+    obtain ⟨post, w, pre, hs, ⟨hwx, hww⟩, hlast⟩ :=
+      last_such (fun e => e.touches x = true ∧ e.isWrite = true) tr hex
+    obtain ⟨_, hpub⟩ := hfresh post w pre hs hwx hww
+    obtain ⟨g, eg, heg, hegc, hig, hgj⟩ := hpub j b hb hbx hbc
+    refine ⟨g, eg, heg, hegc, hgj, ?_⟩
+    intro i a ha hax haw
+    rcases Nat.lt_or_ge pre.length i with hlt | hge
+    · subst hs
+      obtain ⟨p2, p1, hp, _⟩ := evAt_append_ge (tr := w :: pre) post (by simp; omega) ha
+      exact absurd ⟨hax, haw⟩ (hlast a (by simp [hp]))
+    · omega
+
 end ZapVerif.SitePrograms
